@@ -24,7 +24,7 @@ META = {
     'assumptions': ['arguments are dictionary keys and therefore realised: solver-enumerated finite domains'],
 }
 
-SEEDS_Q = ['CCO', 'C1CC1C', 'C[C@H](N)O', 'F/C=C/Cl', 'CC(=O)O', 'CC.OC', 'CN~[Cu]']
+SEEDS_Q = ['CCO', 'C1CC1C', 'C[C@H](N)O', 'F/C=C/Cl', 'CC(=O)O', 'CC.OC', 'CN~[Cu]', 'CC[C@H](N)O']
 SEEDS_X = ['C1CCCCC1C', 'C=CC=C', 'C1CC1C1CC1', 'CC[N+](C)(C)[O-]']
 SEEDS_T = SEEDS_Q + SEEDS_X + ['C1CC2CC1C2', 'C[C@H]1CC[C@@H](O)O1', 'FC=[C@]=CCl', 'OCC(O)CO', 'C#CC=C', 'CS(=O)(=O)C', 'C1CCC1CC=O']
 
@@ -36,8 +36,9 @@ def views(m):
         'components': sorted(tuple(sorted(c)) for c in m.connected_components),
         'order': dict(m.atoms_order), 'charge': int(m), 'radical': m.is_radical,
         'atoms': {n: (a.atomic_number, a.isotope, a.charge, a.is_radical, a.implicit_hydrogens, a.in_ring,
-                      tuple(sorted(a.ring_sizes)), a.hybridization, a.neighbors, a.heteroatoms, a.stereo)
+                      a.hybridization, a.neighbors, a.heteroatoms, a.stereo)
                   for n, a in m.atoms()},
+        'ring_sizes': {n: tuple(sorted(a.ring_sizes)) for n, a in m.atoms()},
         'bonds': {(min(x, y), max(x, y)): (b.order, bool(b.in_ring), b.stereo) for x, y, b in m.bonds()},
         'chiral': (sorted(m.chiral_tetrahedrons), sorted(m.chiral_cis_trans), sorted(m.chiral_allenes)),
         'adjacency_symmetric': all(m._bonds[y][x] is b for x, nb in m._bonds.items() for y, b in nb.items()),
@@ -137,6 +138,23 @@ def apply_edit(V, m, tag):
     raise AssertionError(kind)
 
 
+def valid_ring_views(m, got, ref):
+    from checks.c06 import independent
+    rings = got['sssr']
+    if sorted(map(len, rings)) != sorted(map(len, ref['sssr'])):
+        return False
+    kept = {frozenset((x, y)) for x, y, b in m.bonds() if b.order != 8}
+    edge_sets = []
+    for r in m.sssr:
+        es = [frozenset((r[i], r[(i + 1) % len(r)])) for i in range(len(r))]
+        if len(set(r)) != len(r) or not all(e in kept for e in es):
+            return False
+        edge_sets.append(frozenset(es))
+    if independent(edge_sets, sorted(kept, key=sorted)) != len(rings):
+        return False
+    return all(got['ring_sizes'][n] == tuple(sorted({len(r) for r in rings if n in r})) for n in got['ring_sizes'])
+
+
 def check_coherent(V, m, what, falsify=False):
     try:
         got = views(m)
@@ -156,6 +174,12 @@ def check_coherent(V, m, what, falsify=False):
     if falsify:
         ref['str'] += 'C'
     for k in ref:
+        if k in ('sssr', 'ring_sizes') and got.get(k) != ref[k]:
+            # a minimum cycle basis need not be unique (two equally small rings to choose from): the edited molecule may
+            # hold another one than a rebuilt molecule picks, as long as it is one and the per-atom sizes follow from it
+            V.prove(valid_ring_views(m, got, ref), f'derived view "{k}" is that of a minimum cycle basis of the current bonds',
+                    {'edit': what, 'got': got.get(k), 'want': ref[k]})
+            continue
         V.prove(got.get(k) == ref[k], f'derived view "{k}" equals that of an independently rebuilt molecule',
                 {'edit': what, 'got': got.get(k), 'want': ref[k]})
     V.prove(got['adjacency_symmetric'], 'adjacency stays symmetric', {'edit': what})
